@@ -306,14 +306,14 @@ def check_confidence_chunks(tier, seed):
     if tier == "quick":
         must = [c for c in rest if c["fmt"] == "csv" and c["workers"] == 1 and len(c["consts"]) == 1]
         other = [c for c in rest if c not in must]
-        rest = must + rng.sample(other, 40)
+        rest = must + rng.sample(other, 30)
     ck = ClassCheck("confidence_chunks", "mokapot.confidence.assign_confidence, mokapot.utils.merge_sort",
                "%d runs on one table of %d PSMs (30 spectra x 3 adjacent PSMs, seed %d, fixed tie-free scores): "
                "CONFIDENCE_CHUNK_SIZE and MERGE_SORT_CHUNK_SIZE one at a time over {1,2,3,n-1,n,n+1} plus 6 random "
                "pairs, max_workers {1,2,4}, text / Parquet row groups {1,3,n}, de-duplication and rollup on/off "
                "(%s); each compared with text/1 worker/default constants"
                % (len(rest), n, seed, "full grid" if tier != "quick" else
-                  "quick: all one-at-a-time sweeps for text/1 worker + 40 sampled grid points"),
+                  "quick: all one-at-a-time sweeps for text/1 worker + 30 sampled grid points"),
                "equality of all result files with the reference run; non-trivial = several chunks, or another "
                "format / worker count than the reference")
     refs = {}
@@ -710,7 +710,7 @@ def check_read_pin(tier, seed):
         for w in (1, 2, 4):
             for consts in [{}] + [{"rows": c} for c in S] + [{"cols": c} for c in (1, 2, 3, 4, 5, 7, 8, 9)] + \
                     [{"rows": r, "cols": c} for r, c in ((1, 1), (3, 2), (n - 1, 3), (2, 4), (n + 1, 4), (7, 1))]:
-                if tier == "quick" and w == 2 and fmt in ("pq1", "pqn"):
+                if tier == "quick" and (w == 2 or fmt == "pqn") and fmt != "csv":
                     continue
                 cfgs.append(dict(seed=seed, fmt=fmt, workers=w, consts=consts))
     ck = ClassCheck("read_pin_chunks", "mokapot.parsers.pin.read_pin",
